@@ -14,7 +14,7 @@ import JsonV.Lemmas.ScopePub
 import JsonV.Lemmas.OptsL
 
 namespace JsonV.Props.C19Scope
-open JsonV.Model JsonV.Model.Scope JsonV.Spec JsonV.Gen JsonV.Lemmas.ScopeL JsonV.Lemmas.ScopePub JsonV.Lemmas.OptsL
+open JsonV.Model JsonV.Model.Scope JsonV.Spec JsonV.Gen JsonV.Lemmas.ScopeL JsonV.Lemmas.ScopePub JsonV.Lemmas.OptsL JsonV.Lemmas.FlagsL
 
 /-! ### Tie A: the regenerated statements are the ones the model interprets -/
 
@@ -135,6 +135,18 @@ them) — `GetOption(effective, f)` is the call's value if the call options carr
 theorem scoped_call_precedence (s : Struct) (opts : List Opt) (h : ∀ o ∈ opts, JsonV.Spec.Opt.WF o) :
     abs (s.join opts) = (abs s).override (joinSpec opts) := by
   rw [abs_join s opts h, foldl_override]; rfl
+
+/-- MarshalEncode: every flag other than the three whitespace defaults reads, inside the call, as the call options' value
+if they carry it, else the coder's — in particular every marshal option. -/
+theorem scoped_call_precedence_marshal (s : Struct) (opts : List Opt) (h : ∀ o ∈ opts, JsonV.Spec.Opt.WF o)
+    (i : Nat) (h12 : i ≠ 12) (h13 : i ≠ 13) (h14 : i ≠ 14) :
+    (abs (enterMarshal opts s)).flag i = ((abs s).override (joinSpec opts)).flag i := by
+  rw [← scoped_call_precedence s opts h]
+  unfold enterMarshal
+  simp only
+  split
+  · exact initializeMultiline_lookup _ i h12 h13 h14
+  · rfl
 
 /-! ### hypotheses are satisfiable; concrete runs -/
 
